@@ -16,6 +16,8 @@ Decided (structure of domains.py / coordinates.py / design.py):
          floor(L2 / b + 1); near-square uses n = floor(length / b) + 1 and n x n / n x (n+1) grids at spacing b
   R03.4  extents: per generator call and axis, the spacing is side / (N - 1) of that axis' own side and every count on that
          axis is provably <= N (N itself, a loop variable ranging below it, 1, or the floor count of a shared spacing)
+  R03.6  no domain / coordinate generator hands back a stored result under a key that leaves out one of its
+         parameters (ghverif/memo.py: dependence of the key on the parameters through all local assignments)
   R03.5  primitives: rectangle() places (x0 + i*sx, y0 + j*sy) for i < nx, j < ny; transpose_coordinates swaps
          the two components of every point
 
